@@ -10,6 +10,7 @@ values (Integer, String, Boolean, Undef, Default, Array — no Float, Hash, Time
 |-----------------------------------------------------------|------------------------------|
 | types/integertype.go `newGoConstructor2("Integer", …)`    | `integerCtor`                |
 | types/integertype.go `intFromConvertible`                 | `intFromConvertible`         |
+| types/integertype.go `integerFromString`                  | `integerFromString`          |
 | strconv.ParseInt(s, radix, 64) for radix ∈ {2,8,10,16}    | `parseInt` (modelled, §5)    |
 | types/booleantype.go `newGoConstructor("Boolean", …)`     | `booleanCtor`                |
 | types/arraytype.go `newGoConstructor3(["Array","Tuple"])` | `arrayCtor`                  |
@@ -20,10 +21,10 @@ values (Integer, String, Boolean, Undef, Default, Array — no Float, Hash, Time
 | types/types.go `newInstance` constructor lookup by `Name()` | `ctorOf`, `recvOf`         |
 
 Quirks reproduced
-* `Convertible` admits a string only through `Pattern[/IntegerPattern/]` (`"ff"` is refused by the dispatch even with radix
-  16), while `strconv.ParseInt` with an explicit radix takes no prefix: `"0x1F"` passes the pattern and ends in
-  `NOT_INTEGER` for every radix; `"017"` passes as octal and is read as decimal 17; `"+ 7"` passes and is refused by
-  `ParseInt`.
+* `Convertible` admits a string only through `Pattern[/IntegerPattern/]` = sign, blanks, then `\d+`, `0x…` or `0b…`:
+  `"ff"` is refused by the dispatch even with radix 16; `integerFromString` removes the prefix only when it denotes the
+  given radix, so `"0x1F"` is 31 with radix 16 and `NOT_INTEGER` with the default radix 10, `"0b11"` is 3 with radix 2 and
+  2833 with radix 16 (`b` is a hexadecimal digit); `"017"` is decimal 17 unless the radix is 8.
 * a radix argument that is `default` leaves 10; `abs` of the minimum integer stays negative (`-n` wraps).
 * the `NamedArgs` dispatch (a Struct) has no instance among the alphabet values: its parameter type is `never` here.
 * `Array.new(string)`: `Elements()` sizes the slice by bytes and fills it by rune index, so any non-ASCII character
@@ -50,8 +51,7 @@ def parseDigits (radix : Nat) : List Char → Nat → Option Nat
 
 /-- `strconv.ParseInt(s, radix, 64)` for an explicit radix: optional sign, at least one digit, no prefix, no underscore,
     range error outside int64 -/
-def parseInt (s : String) (radix : Nat) : Option Int :=
-  let cs := s.toList
+def parseInt (cs : List Char) (radix : Nat) : Option Int :=
   let (neg, ds) := match cs with
     | '+' :: r => (false, r)
     | '-' :: r => (true, r)
@@ -63,6 +63,22 @@ def parseInt (s : String) (radix : Nat) : Option Int :=
     let v : Int := if neg then -(n : Int) else (n : Int)
     if minInt ≤ v && v ≤ maxInt then some v else none
 
+/-- `integerFromString`: the sign is set aside, blanks after it are dropped, a `0x`/`0X` prefix is removed when the radix
+    is 16 and a `0b`/`0B` prefix when it is 2 (only when something follows the prefix: `len(s) > 2`), then
+    `strconv.ParseInt(sign+s, radix, 64)` -/
+def integerFromString (s : String) (radix : Nat) : Option Int :=
+  let cs := s.toList
+  let (sign, rest) : List Char × List Char := match cs with
+    | '+' :: r => (['+'], r)
+    | '-' :: r => (['-'], r)
+    | _ => ([], cs)
+  let rest := rest.dropWhile isSpace
+  let rest := match rest with
+    | '0' :: x :: y :: more =>
+      if (radix = 16 && (x = 'x' || x = 'X')) || (radix = 2 && (x = 'b' || x = 'B')) then y :: more else rest
+    | _ => rest
+  parseInt (sign ++ rest) radix
+
 /-- `intFromConvertible` on the alphabet (the `default:` arm calls `from.String()`; among the values that reach it through
     the dispatch only strings occur — for the others the text is not modelled and the arm is marked `fault`, proved
     unreachable) -/
@@ -70,7 +86,7 @@ def intFromConvertible (from_ : Val) (radix : Nat) : CtorResult Val :=
   match from_ with
   | .int n => .value (.int n)
   | .bool b => .value (.int (if b then 1 else 0))
-  | .str s => match parseInt s radix with
+  | .str s => match integerFromString s radix with
     | some n => .value (.int n)
     | none => .reported "NOT_INTEGER"
   | _ => .fault
